@@ -16,6 +16,7 @@ from .. import common, tlc, vsched
 from ..vsched import core as vcore
 from ..vsched import vqueue
 from ..vsched import vthreading
+from ..vsched import vtime
 
 REJ = [0, 0, 0, 0, 0, []]
 FUNCTIONS = [1, 2, 3, 4, 5, 14, 15]
@@ -316,19 +317,21 @@ def run_router(sc):
             router.start()
             rthreads = []
 
-            def receiver(f, timeout):
+            def receiver(f, timeout, pause=0.0):
                 fn = CPXFunction(f)
                 while True:
                     try:
                         router.receivePacket(fn, timeout)
                     except vqueue.Empty:
-                        pass
+                        if pause:                  # a receiver that does something else between polls
+                            vtime.sleep(pause)
 
-            for (r, f, timeout) in sc['rcv']:
-                th = s.spawn(receiver, 'rcv%d' % r, (f, timeout))
+            for ent in sc['rcv']:
+                (r, f, timeout) = ent[:3]
+                th = s.spawn(receiver, 'rcv%d' % r, (f, timeout) + tuple(ent[3:4]))
                 rec.names[th.name] = r
                 rthreads.append(th)
-            ids = [r for (r, _f, _t) in sc['rcv']]
+            ids = [ent[0] for ent in sc['rcv']]
             s.run(until=lambda: all(r in rec.registered for r in ids) and
                   all(_pending(t)[0] == 'queue.get' for t in rthreads), horizon=5.0)
             rec.ev.append({'e': 'start'})
@@ -344,6 +347,8 @@ def run_router(sc):
                     return False
                 return all(t.finished or _pending(t)[0] == 'queue.get' for t in rthreads)
             res = s.run(until=quiet, horizon=s.now + 30.0)
+            if any(len(ent) > 3 for ent in sc['rcv']):      # let pausing receivers come back and drain
+                res = s.run(until=quiet, horizon=s.now + 5.0)
             dead = [t['name'] for t in s.report() if t['status'] == 'dead']
             alive = not dead and not rrec.finished
     finally:
@@ -649,7 +654,7 @@ def run_job(job):
         sc = dict(job, stream=stream)
         if kind == 'router':
             ev, fin = run_router(sc)
-            return dict(base, mode='router', rcv=[r for (r, _f, _t) in job['rcv']], ev=ev, fin=fin)
+            return dict(base, mode='router', rcv=[ent[0] for ent in job['rcv']], ev=ev, fin=fin)
         if kind == 'tcp':
             ev, fin = run_tcp(sc)
             return dict(base, mode='tcp', rcv=[0] + [r for (r, _f, _t) in job['rcv']], ev=ev, fin=fin)
@@ -794,10 +799,20 @@ def jobs_random(tier, rng):
         L = 4 * len(lens) + sum(lens)
         rcv = []
         for r in range(1, rng.randint(1, 5) + 1):
-            rcv.append((r, rng.choice(fns), rng.choice((None, None, 0.2))))
+            tmo = rng.choice((None, None, 0.2))
+            # some polling receivers do something else for a while between two polls
+            rcv.append((r, rng.choice(fns), tmo) + ((rng.choice((0.1, 0.3)),) if tmo and rng.random() < 0.5 else ()))
         jobs.append({'kind': 'router', 'pkts': pk, 'cuts': rand_cuts(rng, L), 'rcv': rcv, 'long': True,
                      'sched': rng.randrange(1 << 30), 'policy': ('random', 'router_first', 'router_last')[k % 3],
                      'gaps': rand_gaps(rng, pk) if k % 2 else {}})
+    for fns in ([2, 5], [1, 14]):
+        pk = _pkts_for(rng, [1, 0, 3, 2, 1, 4], fns=fns)
+        pos, gaps = 0, {}
+        for p_ in pk:
+            pos += 4 + len(p_[5])
+            gaps[pos] = 0.35
+        jobs.append({'kind': 'router', 'pkts': pk, 'cuts': [], 'rcv': [(1, fns[0], 0.2, 0.4), (2, fns[1], 0.3, 0.25)],
+                     'gaps': gaps, 'sched': 7, 'policy': 'router_first', 'long': True})
     for k in range(n):
         pk = []
         for _ in range(rng.randint(1, maxpk)):
@@ -857,6 +872,23 @@ def mutant_battery(tier, rng):
                            'drv': ('tcp', 'serial')[k % 2], 'sends': sends, 'sched': rng.randrange(1 << 30),
                            'wait': -1, 'tx_early': bool(k % 3),
                            'gaps': rand_gaps(rng, pk) if k % 2 == 0 else {}})
+    # fixed: the peer pauses after EVERY packet for longer than any polling timeout
+    fns = [2, 5]
+    pk = _pkts_for(rng, [1, 0, 3, 2, 1, 4], fns=fns)
+    pos, gaps = 0, {}
+    for p in pk:
+        pos += 4 + len(p[5])
+        gaps[pos] = 0.35
+    bat['router'].append({'kind': 'router', 'pkts': pk, 'cuts': [], 'rcv': [(1, fns[0], 0.2, 0.4), (2, fns[1], 0.3, 0.25)],
+                          'gaps': gaps, 'sched': 7, 'policy': 'router_first'})
+    pk = [rand_packet(rng, n, [FN_CRTP]) for n in (1, 2, 5, 1, 31)]
+    pos, gaps = 0, {}
+    for p in pk:
+        pos += 4 + len(p[5])
+        gaps[pos] = 0.15
+    for drv in ('tcp', 'serial'):
+        bat['tcp'].append({'kind': 'tcp', 'pkts': pk, 'cuts': [], 'rcv': [], 'drv': drv, 'sends': [],
+                           'sched': 11, 'wait': -1, 'tx_early': False, 'gaps': gaps})
     return bat
 
 
